@@ -42,6 +42,7 @@ theorem inject_spec : (o : Obj) → Spec b N P (inject o) (fun r st => P st ∧ 
   | .str _ => by unfold inject; exact leaf_ret hP _
   | .bytes _ => by unfold inject; exact leaf_ret hP _
   | .enumM _ _ => by unfold inject; exact leaf_ret hP _
+  | .mdict _ _ => by unfold inject; exact leaf_ret hP _
   | .coll k xs => by
     unfold inject
     refine Spec.bind (injectL_spec xs) (fun ys => ?_)
